@@ -52,6 +52,12 @@ for a, b in itertools.product(ptrs, ptrs):
             bad.append("%r %s %r is %r, addresses %#x %#x" % (a, op.__name__, b, op(a, b), ia, ib))
     if a == b and hash(a) != hash(b):
         bad.append("%r == %r but hashes differ" % (a, b))
+fvals = [0.0, -0.0, 1.5, -1.5, float('inf'), float('-inf'), float('nan'), 1e-320, 3.0e38, 16777217.0]
+fcds = [(ffi.cast(t, v), float(ffi.cast(t, v))) for t in ("float", "double") for v in fvals]
+for (a, va), (b, vb) in itertools.product(fcds, fcds):
+    for op in OPS:
+        if op(a, b) != op(va, vb):
+            bad.append("%r %s %r is %r, the floats %r %r give %r" % (a, op.__name__, b, op(a, b), va, vb, op(va, vb)))
 if bad:
     print("FAIL %d checks violate C17; first: %s" % (len(bad), " ;; ".join(bad[:3]))); sys.exit(1)
 print("ok")
